@@ -139,31 +139,127 @@ theorem split_colon (l : Bytes) :
   | none => rfl
   | some p => rfl
 
+/-! #### blank names (`QByteArray::trimmed().isEmpty()`) -/
+
+/-- a byte string that consists of white space only (the empty string included) -/
+def Blank (n : Bytes) : Prop := ∀ c ∈ n, isSp c = true
+
+instance (n : Bytes) : Decidable (Blank n) := by unfold Blank; infer_instance
+
+theorem dropWhile_isSp_eq_nil_iff (n : Bytes) : n.dropWhile isSp = [] ↔ Blank n := by
+  unfold Blank
+  induction n with
+  | nil => simp
+  | cons c r ih =>
+    rw [List.dropWhile_cons]
+    cases hc : isSp c with
+    | true => simp [ih, hc]
+    | false => simp [hc]
+
+theorem trimL_eq_nil_iff (n : Bytes) : trimL n = [] ↔ Blank n := dropWhile_isSp_eq_nil_iff n
+
+theorem trimR_eq_nil_iff (n : Bytes) : trimR n = [] ↔ Blank n := by
+  unfold trimR
+  rw [List.reverse_eq_nil_iff, dropWhile_isSp_eq_nil_iff]
+  unfold Blank
+  simp only [List.mem_reverse]
+
+/-- `trimmed()` is empty exactly on blank strings -/
+theorem trim_eq_nil_iff (n : Bytes) : trim n = [] ↔ Blank n := by
+  unfold trim
+  rw [trimR_eq_nil_iff]
+  constructor
+  · intro h
+    by_cases hb : Blank n
+    · exact hb
+    · -- the first byte kept by `trimL` is not white space
+      exfalso
+      have hne : n.dropWhile isSp ≠ [] := fun e => hb ((trimL_eq_nil_iff n).1 e)
+      have h1 := List.head_dropWhile_not isSp hne
+      have h2 := h _ (List.head_mem hne)
+      rw [h2] at h1
+      cases h1
+  · intro h c hc
+    exact h c ((List.dropWhile_sublist isSp).subset hc)
+
+theorem trim_isEmpty_iff (n : Bytes) : (trim n).isEmpty = true ↔ Blank n := by
+  rw [List.isEmpty_iff, trim_eq_nil_iff]
+
+/-- a header line of the form `name: value`: it contains a colon and what stands before the
+    FIRST colon (the name) is not blank.  Executable form (what `parseHeaderList` tests). -/
+def hdrLineB (l : Bytes) : Bool :=
+  match breakOn [COLON] l with
+  | some (n, _) => !(trim n).isEmpty
+  | none => false
+
+/-- a header line of the form `name: value`, stated on the bytes: `l = name ++ ":" ++ value` with
+    a name that contains no colon (so the colon shown is the first one) and at least one byte
+    that is not white space -/
+def HdrLine (l : Bytes) : Prop :=
+  ∃ n x, l = n ++ [COLON] ++ x ∧ COLON ∉ n ∧ ∃ c ∈ n, isSp c = false
+
+theorem not_blank_iff (n : Bytes) : ¬ Blank n ↔ ∃ c ∈ n, isSp c = false := by
+  unfold Blank
+  constructor
+  · intro h
+    apply Classical.byContradiction
+    intro hc
+    apply h
+    intro c hm
+    cases hs : isSp c with
+    | true => rfl
+    | false => exact absurd ⟨c, hm, hs⟩ hc
+  · rintro ⟨c, hm, hs⟩ h
+    rw [h c hm] at hs
+    cases hs
+
+theorem hdrLineB_iff (l : Bytes) : hdrLineB l = true ↔ HdrLine l := by
+  unfold hdrLineB HdrLine
+  constructor
+  · intro h
+    cases hb : breakOn [COLON] l with
+    | none => rw [hb] at h; cases h
+    | some p =>
+      obtain ⟨n, x⟩ := p
+      rw [hb] at h
+      simp only [Bool.not_eq_true'] at h
+      refine ⟨n, x, breakOn_some hb, breakOn_singleton_not_mem hb, (not_blank_iff n).1 ?_⟩
+      intro hbl
+      rw [(trim_isEmpty_iff n).2 hbl] at h
+      cases h
+  · rintro ⟨n, x, rfl, hn, hc⟩
+    rw [breakOn_singleton x hn]
+    simp only [Bool.not_eq_true']
+    cases he : (trim n).isEmpty with
+    | false => rfl
+    | true => exact absurd ((trim_isEmpty_iff n).1 he) ((not_blank_iff n).2 hc)
+
+theorem colon_mem_of_hdrLineB {l : Bytes} (h : hdrLineB l = true) : COLON ∈ l := by
+  obtain ⟨n, x, rfl, _, _⟩ := (hdrLineB_iff l).1 h
+  simp
+
 theorem parseHeaderList_cons (l : Bytes) (rest : List Bytes) (m : HeaderMap) :
     parseHeaderList (l :: rest) m =
-      if COLON ∈ l then parseHeaderList rest (insertLine m l) else none := by
+      if hdrLineB l then parseHeaderList rest (insertLine m l) else none := by
   rw [parseHeaderList, split_colon]
+  unfold hdrLineB
   cases hb : breakOn [COLON] l with
-  | none =>
-    have : COLON ∉ l := fun c => by
-      have := breakOn_singleton_isSome_iff.2 c
-      rw [hb] at this; cases this
-    rw [if_neg this]
+  | none => simp
   | some p =>
     obtain ⟨n, x⟩ := p
-    have : COLON ∈ l := breakOn_singleton_isSome_iff.1 (by rw [hb]; rfl)
-    rw [if_pos this]
     simp only [insertLine, hb]
+    cases (trim n).isEmpty <;> simp
 
-/-- `parseHeaderList` succeeds iff every line has a colon, and then folds `insertLine` -/
+/-- `parseHeaderList` succeeds iff every line has the form `name: value` (a colon, and a name
+    before the first colon that is not blank), and then folds `insertLine` -/
 theorem parseHeaderList_eq (hs : List Bytes) (m : HeaderMap) :
     parseHeaderList hs m =
-      if ∀ l ∈ hs, COLON ∈ l then some (hs.foldl insertLine m) else none := by
+      if ∀ l ∈ hs, hdrLineB l = true then some (hs.foldl insertLine m) else none := by
   induction hs generalizing m with
   | nil => simp [parseHeaderList]
   | cons l rest ih =>
     rw [parseHeaderList_cons]
-    by_cases h : COLON ∈ l
+    by_cases h : hdrLineB l = true
     · rw [if_pos h, ih]
       simp [h]
     · rw [if_neg h, if_neg]
